@@ -245,8 +245,8 @@ var lockOps = map[string]string{
 // blockingOps: other sync primitives whose blocking is simulated (type.method -> simrt function).
 var blockingOps = map[string]string{
 	"Cond.Wait": "CondWait", "Cond.Signal": "CondSignal", "Cond.Broadcast": "CondBroadcast",
-	"Once.Do":        "OnceDo",
-	"WaitGroup.Add":  "WGAdd", "WaitGroup.Done": "WGDone", "WaitGroup.Wait": "WGWait",
+	"Once.Do":       "OnceDo",
+	"WaitGroup.Add": "WGAdd", "WaitGroup.Done": "WGDone", "WaitGroup.Wait": "WGWait",
 }
 
 func lit(s string) *ast.BasicLit {
@@ -351,8 +351,7 @@ func rewriteFile(p *packages.Package, f *ast.File, simrtPath string) bool {
 			}
 			add("R3", fset, n.Pos(), "range over map")
 			tmp++
-			e := ast.NewIdent(fmt.Sprintf("simE%d_", tmp))
-			ok := ast.NewIdent(fmt.Sprintf("simOK%d_", tmp))
+			it := ast.NewIdent(fmt.Sprintf("simIt%d_", tmp))
 			key, val := n.Key, n.Value
 			if key == nil {
 				key = ast.NewIdent("_")
@@ -360,21 +359,27 @@ func rewriteFile(p *packages.Package, f *ast.File, simrtPath string) bool {
 			if val == nil {
 				val = ast.NewIdent("_")
 			}
-			var pre []ast.Stmt
-			kv := &ast.CallExpr{Fun: &ast.SelectorExpr{X: e, Sel: ast.NewIdent("KV")}}
-			if n.Tok == token.ASSIGN {
-				pre = append(pre,
-					&ast.DeclStmt{Decl: &ast.GenDecl{Tok: token.VAR, Specs: []ast.Spec{&ast.ValueSpec{Names: []*ast.Ident{ok}, Type: ast.NewIdent("bool")}}}},
-					&ast.AssignStmt{Lhs: []ast.Expr{key, val, ok}, Tok: token.ASSIGN, Rhs: []ast.Expr{kv}})
-			} else {
-				pre = append(pre, &ast.AssignStmt{Lhs: []ast.Expr{key, val, ok}, Tok: token.DEFINE, Rhs: []ast.Expr{kv}})
+			tok := n.Tok
+			if tok != token.ASSIGN {
+				tok = token.DEFINE
 			}
-			pre = append(pre, &ast.IfStmt{Cond: &ast.UnaryExpr{Op: token.NOT, X: ok}, Body: &ast.BlockStmt{List: []ast.Stmt{&ast.BranchStmt{Tok: token.CONTINUE}}}})
-			n.Key = ast.NewIdent("_")
-			n.Value = e
-			n.Tok = token.DEFINE
-			n.X = simCall("Entries", n.X)
-			n.Body.List = append(pre, n.Body.List...)
+			kv := &ast.CallExpr{Fun: &ast.SelectorExpr{X: it, Sel: ast.NewIdent("KV")}}
+			var pre []ast.Stmt
+			isBlank := func(e ast.Expr) bool { id, ok := e.(*ast.Ident); return ok && id.Name == "_" }
+			if !(isBlank(key) && isBlank(val)) {
+				if tok == token.DEFINE && isBlank(key) && isBlank(val) {
+					tok = token.ASSIGN
+				}
+				pre = append(pre, &ast.AssignStmt{Lhs: []ast.Expr{key, val}, Tok: tok, Rhs: []ast.Expr{kv}})
+			}
+			// for it := simrt.Iter(m); it.Next(); { k, v := it.KV(); body }
+			loop := &ast.ForStmt{
+				For:  n.For,
+				Init: &ast.AssignStmt{Lhs: []ast.Expr{it}, Tok: token.DEFINE, Rhs: []ast.Expr{simCall("Iter", n.X)}},
+				Cond: &ast.CallExpr{Fun: &ast.SelectorExpr{X: it, Sel: ast.NewIdent("Next")}},
+				Body: &ast.BlockStmt{Lbrace: n.Body.Lbrace, List: append(pre, n.Body.List...), Rbrace: n.Body.Rbrace},
+			}
+			c.Replace(loop)
 			changed = true
 		case *ast.CallExpr:
 			fn := calleeFunc(info, n)
@@ -425,7 +430,17 @@ func rewriteFile(p *packages.Package, f *ast.File, simrtPath string) bool {
 				changed = true
 				return false
 			case rp == "reflect" && rn == "Value" && fn.Name() == "MapRange":
-				add("R5", fset, n.Pos(), "reflect.Value.MapRange")
+				// *simrt.ReflectIt has the Next/Key/Value methods of *reflect.MapIter;
+				// if the code names the type explicitly the build fails (exit 2), never silently
+				se, ok := ast.Unparen(n.Fun).(*ast.SelectorExpr)
+				if !ok {
+					add("R5", fset, n.Pos(), "reflect.Value.MapRange")
+					return true
+				}
+				add("R4", fset, n.Pos(), "reflect.Value.MapRange")
+				c.Replace(simCall("MapRange", se.X))
+				changed = true
+				return false
 			case rp == "sync" && rn == "Map" && fn.Name() == "Range":
 				add("R5", fset, n.Pos(), "sync.Map.Range")
 			case pk == "time" && rp == "" && (fn.Name() == "Now" || fn.Name() == "Sleep" || fn.Name() == "After" || fn.Name() == "AfterFunc" || fn.Name() == "NewTimer" || fn.Name() == "NewTicker" || fn.Name() == "Tick" || fn.Name() == "Since" || fn.Name() == "Until"):
